@@ -7,10 +7,18 @@ use std::str::FromStr;
 use serde_json::{json, Value};
 
 mod ops;
+mod ops_err;
+
+/// location (file:line:col) of the last panic, recorded by the panic hook
+static LAST_PANIC_AT: std::sync::Mutex<Option<String>> = std::sync::Mutex::new(None);
 
 fn main() {
     // silence the default panic message; panics are reported in the answer
-    std::panic::set_hook(Box::new(|_| {}));
+    std::panic::set_hook(Box::new(|info| {
+        if let Ok(mut g) = LAST_PANIC_AT.lock() {
+            *g = info.location().map(|l| format!("{}:{}:{}", l.file(), l.line(), l.column()));
+        }
+    }));
     let stdin = std::io::stdin();
     let stdout = std::io::stdout();
     let mut out = std::io::BufWriter::new(stdout.lock());
@@ -29,8 +37,9 @@ fn main() {
                 continue;
             }
         };
+        let t0 = std::time::Instant::now();
         let res = catch_unwind(AssertUnwindSafe(|| ops::dispatch(&req)));
-        let ans = match res {
+        let mut ans = match res {
             Ok(v) => v,
             Err(p) => {
                 let msg = if let Some(s) = p.downcast_ref::<String>() {
@@ -40,9 +49,16 @@ fn main() {
                 } else {
                     "?".to_string()
                 };
-                json!({"panic": msg})
+                let at = LAST_PANIC_AT.lock().ok().and_then(|mut g| g.take());
+                json!({"panic": msg, "at": at})
             }
         };
+        // opt-in wall time of this request (microseconds)
+        if req.get("_time").and_then(|v| v.as_bool()).unwrap_or(false) {
+            if let Some(o) = ans.as_object_mut() {
+                o.insert("_us".to_string(), json!(t0.elapsed().as_micros() as u64));
+            }
+        }
         writeln!(out, "{}", ans).unwrap();
         out.flush().unwrap();
     }
